@@ -211,3 +211,33 @@ def exhaustive_compute_case(idx):
                     'kind': 'exh-' + kind, 'periodic': [], 'adj': 'grid', 'layout': 'C'}
         r -= cnt
     raise IndexError(idx)
+
+
+# ---------------------------------------------------------------------------------------------
+# all ordered forests (tree shapes) with a given number of nodes
+
+_FOREST_MEMO = {0: [()]}
+
+
+def forests(n):
+    """all ordered forests with n nodes as nested tuples: a forest is a tuple of trees, a tree is the tuple of its children"""
+    if n in _FOREST_MEMO:
+        return _FOREST_MEMO[n]
+    out = []
+    for k in range(1, n + 1):
+        for kids in forests(k - 1):
+            for rest in forests(n - k):
+                out.append((kids,) + rest)
+    _FOREST_MEMO[n] = out
+    return out
+
+
+FOREST_SHAPES = [f for n in range(1, 8) for f in forests(n)]
+
+
+def label_forest(shape, ids):
+    """attach identifiers (taken from the iterator `ids` in prefix order) to a shape: nested [id, [children]]"""
+    def tree(t):
+        i = next(ids)
+        return [i, [tree(c) for c in t]]
+    return [tree(t) for t in shape]
